@@ -201,13 +201,18 @@ def _conservation(case, F, stats):
     V = []
     recs = case.recs
     meta = case.sc.meta.get("conserve", {})      # ufd idx -> owner slot (generator's promise: registered before loop, never deregistered)
-    if not meta:
+    if not meta and not case.sc.meta.get("hup"):
         return V
     w = {}
     ev = {}
     st_bad = set()
     st = {}
+    run_over = False
     for r in recs:
+        if r.k == "<" and (r.op == "ctx_loop" or (r.op == "ctx_dispatch" and r.fields.get("looping") == "0" and st)):
+            run_over = True         # what happens at teardown does not matter for conservation
+        if run_over:
+            continue
         if r.k == "<" and r.op == "fd_write" and executed(r) and r.ret >= 0:
             w[r.args[0]] = w.get(r.args[0], 0) + 1
         elif r.k == "V" and r.kind == "fd":
@@ -218,6 +223,14 @@ def _conservation(case, F, stats):
                 if st.get(m) == "R" and l != "R":
                     st_bad.add(m)
                 st[m] = l
+    for u, owner in case.sc.meta.get("hup", {}).items():
+        if owner in st_bad:
+            continue
+        n_w, n_e = w.get(u, 0), ev.get((owner, u), 0)
+        if stats is not None:
+            stats["hangup_fds"] = stats.get("hangup_fds", 0) + 1
+        if n_e < n_w:
+            V.append(("C03/event-lost", "descriptor %d of module %d: %d tokens were written before its peer closed, the handler received only %d events (a readable descriptor reporting hang-up is still readable)" % (u, owner, n_w, n_e)))
     for u, owner in meta.items():
         if owner in st_bad:
             continue
